@@ -589,6 +589,35 @@ M("r10-context-fixpoint-flag-on-new-set-only", ["C05", "C09"], "break",
 M("r10-context-fixpoint-or-form-benign", ["C05", "C09"], "benign",
   [("yaep.c", "\t      if (sit != new_sit)\n\t\t{\n\t\t  new_sits[i] = sit;\n\t\t  changed_p = TRUE;\n\t\t}", "\t      changed_p |= (sit != new_sit);\n\t      new_sits[i] = sit;")])
 
+# ---- R27 (C18) ---------------------------------------------------------------------------------------
+M("r27-sets-never-shared", ["C18"], "break",
+  [("yaep.c", "  if (*entry == NULL)\n    {\n      *entry = (hash_table_entry_t) new_set;\n      n_sets++;\n      n_sets_start_sits += new_n_start_sits;\n      OS_TOP_FINISH (sets_os);\n    }\n  else\n    {\n      new_set = (struct set *) *entry;\n      OS_TOP_NULLIFY (sets_os);\n    }",
+    "  *entry = (hash_table_entry_t) new_set;\n  n_sets++;\n  n_sets_start_sits += new_n_start_sits;\n  OS_TOP_FINISH (sets_os);")], "set_insert/set_tab")
+M("r27-found-dists-not-used", ["C18"], "break",
+  [("yaep.c", "      new_dists = new_set->dists = ((struct set *) *entry)->dists;\n      OS_TOP_NULLIFY (set_dists_os);", "      OS_TOP_FINISH (set_dists_os);")], "set_insert/set_dists_tab")
+M("r27-dists-hash-first-element", ["C18"], "break",
+  [("yaep.c", "  while (dist_ptr < dist_bound)\n    result = result * hash_shift + *dist_ptr++;\n  set->dists_hash = result;", "  if (dist_ptr < dist_bound)\n    result = result * hash_shift + *dist_ptr++;\n  set->dists_hash = result;")], "dists_hash/depends-on-key")
+M("r27-core-hash-prefix", ["C18"], "break",
+  [("yaep.c", "  for (i = 0; i < n_sits; i++)\n    {\n      n = sits[i]->sit_number;", "  for (i = 0; i < 2 && i < n_sits; i++)\n    {\n      n = sits[i]->sit_number;")], "set_core_hash/depends-on-key")
+M("r27-goto-hash-without-lookahead", ["C18"], "break",
+  [("yaep.c", "  return ((set_core_dists_hash (set) * hash_shift\n\t   + term->u.term.term_num) * hash_shift + lookahead);", "  return ((set_core_dists_hash (set) * hash_shift\n\t   + term->u.term.term_num) * hash_shift);")], "set_term_lookahead_hash/depends-on-key")
+M("r27-built-set-not-cached", ["C18"], "break",
+  [("yaep.c", "\t  ((struct set_term_lookahead *) *entry)->result[i] = new_set;\n", "")], "build_pl/built-set-recorded")
+M("r27-cache-cursor-stuck", ["C18"], "break",
+  [("yaep.c", "\t  ((struct set_term_lookahead *) *entry)->curr =\n\t    (i + 1) % MAX_CACHED_GOTO_RESULTS;\n", "")], "build_pl/built-set-recorded")
+M("r27-cached-set-not-taken", ["C18"], "break",
+  [("yaep.c", "\t\tnew_set = tab_set;\n\t\tn_goto_successes++;", "\t\tn_goto_successes++;")], "build_pl/build-skipped-after-hit")
+M("r27-table-grows-when-full", ["C18"], "break",
+  [("hashtab.c", "  if (htab->size / 4 <= htab->number_of_elements / 3)", "  if (htab->size <= htab->number_of_elements + 1)"),
+   ("hashtab.cpp", "  if (_size / 4 <= number_of_elements / 3)", "  if (_size <= number_of_elements + 1)")], "lookup/expands-below-full")
+M("r27-additive-growth", ["C18"], "break",
+  [("hashtab.c", "    create_hash_table (htab->alloc, htab->number_of_elements * 2,", "    create_hash_table (htab->alloc, htab->number_of_elements + 64,")], "expansion/geometric")
+M("r27-threshold-rewritten-benign", ["C18"], "benign",
+  [("hashtab.c", "  if (htab->size / 4 <= htab->number_of_elements / 3)", "  if (htab->number_of_elements / 3 >= htab->size / 4)")])
+M("r27-consing-inverted-test-benign", ["C18"], "benign",
+  [("yaep.c", "  if (*entry == NULL)\n    {\n      *entry = (hash_table_entry_t) new_set;\n      n_sets++;\n      n_sets_start_sits += new_n_start_sits;\n      OS_TOP_FINISH (sets_os);\n    }\n  else\n    {\n      new_set = (struct set *) *entry;\n      OS_TOP_NULLIFY (sets_os);\n    }",
+    "  if (*entry != NULL)\n    {\n      new_set = (struct set *) *entry;\n      OS_TOP_NULLIFY (sets_os);\n    }\n  else\n    {\n      n_sets++;\n      n_sets_start_sits += new_n_start_sits;\n      *entry = (hash_table_entry_t) new_set;\n      OS_TOP_FINISH (sets_os);\n    }")])
+
 # ---- R8 / R2f (C16, C19) ----------------------------------------------------------------------------
 M("r8-revert-F14", ["C19", "C16"], "break", [("hashtab.cpp", "		  entry_ptr = first_deleted_entry_ptr;\n		  *entry_ptr = EMPTY_ENTRY;", "		  entry_ptr = first_deleted_entry_ptr;\n		  *entry_ptr = DELETED_ENTRY;")], "find_hash_table_entry~")
 M("r2f-revert-F15", ["C19", "C16"], "break", [("hashtab.cpp", "  ::operator delete (new_htab);", "  yaep_free (new_htab->alloc, new_htab);")], "expand_hash_table/new")
